@@ -331,6 +331,47 @@ def dist_job(metric, dtype, rows, feats, with_out=False):
     return path
 
 
+def dist_mismatch_job(metric, x_dtype, y_dtype):
+    """a target whose element type differs from the data's is rejected with an error by the public wrapper (it is not converted
+    silently: a narrowing conversion would measure the distance to another point)"""
+    def path(ctx):
+        K = KModule('libdist')
+        X = sym_cells(x_dtype, (2, 1), 'x')
+        y = sym_cells(y_dtype, (1,), 'y')
+        exc = None
+        try:
+            getattr(K, metric)(X, y, None)
+        except (Exception, KernelAssertion) as e:
+            exc = e
+
+        def witness(model):
+            Xc, yc = conc_array(model, X), conc_array(model, y)
+            out = {'inputs': {'metric': metric, 'X': Xc.tolist(), 'X.dtype': x_dtype, 'y': yc.tolist(), 'y.dtype': y_dtype}, 'skip_compare': True}
+            try:
+                mod = build_ext('libdist')
+            except Exception as e:
+                return dict(out, out=None, violated=None, exception='build failed: %r' % e)
+            with core.concrete_mode():
+                try:
+                    r = getattr(mod, metric)(Xc, yc)
+                    out['out'] = np.asarray(r).tolist()
+                    out['violated'] = ['a target of another element type is accepted']
+                    out['signature'] = '%s:mismatched-element-types-accepted' % metric
+                except Exception as e:
+                    out['out'] = None
+                    out['exception'] = repr(e)
+                    out['violated'] = []
+            return out
+        if exc is not None:
+            name = type(exc).__name__
+            # (the interpreter's fused-type dispatch reports TypeError where the compiled buffer acquisition reports ValueError:
+            # both are rejections - the differential compares on 'Error')
+            return PathOut([('rejected-with-an-error', name in ('DataInvalid', 'ValueError', 'TypeError'))], {}, witness, exc='Error',
+                           desc='rejected: %s' % name)
+        return PathOut([('a-target-of-another-element-type-is-rejected', False)], {}, witness, desc='accepted')
+    return path
+
+
 def dist_safety_job(metric, xr, yr, outr, out_dtype='float64', y_dtype=None):
     """memory safety for UNBOUNDED extents + prange independence, through the public wrapper.
     xr, yr = ranks of X and y; outr = rank of out, or None"""
@@ -576,6 +617,8 @@ def jobs_for(prop, tier):
                 add('dist_safety_job', '%s-safety[out is float32]' % metric, metric=metric, xr=2, yr=1, outr=1, out_dtype='float32')
                 add('dist_safety_job', '%s-safety[y has another element type]' % metric, metric=metric, xr=2, yr=1, outr=None,
                     y_dtype='int16' if metric != 'hamming' else 'int16')
+                for xd, yd in ((('int8', 'int64'), ('float32', 'float64'), ('int64', 'int32')) if metric != 'hamming' else (('int8', 'int64'), ('uint16', 'uint8'))):
+                    add('dist_mismatch_job', '%s[X %s, y %s: rejected]' % (metric, xd, yd), metric=metric, x_dtype=xd, y_dtype=yd)
     if prop == 'C18':
         for dt in (INT_DTYPES + UINT_DTYPES):
             add('bincount_job', 'bincount[%s,T=2,1x2,2x2]' % dt, dtype=dt, T=2, fa=1, fb=2, na=2, nb=2)
